@@ -337,69 +337,33 @@ func exec(c px.Context, op string, args []sx.Sexp) core.Result {
 		}
 		return core.Result{Out: out, Pred: "ok", NonTrivial: nt}
 	case "serjson":
-		// end to end (implementation only): the real serializer streaming a Data value into the JSON streamer,
-		// read back through JsonToData into the real deserializer; shared substructure and long repeated
-		// strings exercise back-references
-		v := valOf(args[0])
-		if hasBin(args[0]) || hasNonStringKey(args[0]) {
-			return core.Result{Out: "-", Pred: "n/a"}
+		// end to end (implementation only): the real serializer streaming a value into the JSON streamer, read back
+		// through JsonToData into a recorder and into the real deserializer (ser.go)
+		return serev(c, serOpts{rich: true, dedup: 2, localRef: true}, args[0], true)
+	case "serev":
+		o := parseSerOpts(args[0])
+		res := core.Result{}
+		if o.rich {
+			return serev(c, o, args[1], true)
 		}
-		w := types.WrapValues([]px.Value{v, v, types.WrapString("a string that is long enough to be de-duplicated"), v, types.WrapString("a string that is long enough to be de-duplicated")})
-		var buf bytes.Buffer
-		var back px.Value
-		if err := safely(func() {
-			serialization.NewSerializer(c, px.EmptyMap).Convert(w, serialization.NewJsonStreamer(&buf))
-		}); err != nil {
-			return core.Fail("-", "serjson-write-panic", fmt.Sprint(err))
-		}
-		if !json.Valid(buf.Bytes()) {
-			return core.Fail("-", "serjson-invalid-json", buf.String())
-		}
-		if err := safely(func() {
-			fc := serialization.NewDeserializer(c, px.EmptyMap)
-			serialization.JsonToData("t", bytes.NewReader(buf.Bytes()), fc)
-			back = fc.Value()
-		}); err != nil {
-			if containsReserved(args[0]) {
-				return core.Fail("-", "pref-key", "reserved key in user hash: "+fmt.Sprint(err))
-			}
-			return core.Fail("-", "serjson-read-panic", buf.String()+": "+fmt.Sprint(err))
-		}
-		if back == nil || !back.Equals(w, nil) || valStr(back) != valStr(w) {
-			if containsReserved(args[0]) {
-				return core.Fail("-", "pref-key", "reserved key in user hash changes the value on the way back")
-			}
-			return core.Fail("-", "serjson-differs", buf.String())
-		}
-		return core.Result{Out: "-", Pred: "ok", NonTrivial: true}
+		quietly(c, func(ctx px.Context) { res = serev(ctx, o, args[1], true) })
+		return res
+	case "d2j":
+		res := core.Result{}
+		quietly(c, func(ctx px.Context) { res = d2j(ctx, args[0]) })
+		return res
+	case "coll":
+		return coll(args[0])
 	case "serpb":
-		// end to end (implementation only): the real serializer into the protobuf consumer, then
-		// ConsumePBData into the real deserializer
-		v := valOf(args[0])
-		if hasBin(args[0]) {
-			return core.Result{Out: "-", Pred: "n/a"}
-		}
-		w := types.WrapValues([]px.Value{v, v, types.WrapString("rep"), v, types.WrapString("rep")})
-		var back px.Value
-		if err := safely(func() {
-			pc := proto.NewProtoConsumer()
-			serialization.NewSerializer(c, px.EmptyMap).Convert(w, pc)
-			fc := serialization.NewDeserializer(c, px.EmptyMap)
-			proto.ConsumePBData(pc.Value(), fc)
-			back = fc.Value()
-		}); err != nil {
-			if containsReserved(args[0]) {
-				return core.Fail("-", "pref-key", "reserved key in user hash: "+fmt.Sprint(err))
-			}
-			return core.Fail("-", "serpb-panic", fmt.Sprint(err))
-		}
-		if back == nil || !back.Equals(w, nil) || valStr(back) != valStr(w) {
-			if containsReserved(args[0]) {
-				return core.Fail("-", "pref-key", "reserved key in user hash changes the value on the way back")
-			}
-			return core.Fail("-", "serpb-differs", valStr(back))
-		}
-		return core.Result{Out: "-", Pred: "ok", NonTrivial: true}
+		// end to end (implementation only): the real serializer into the protobuf consumer, then ConsumePBData into a
+		// recorder and into the real deserializer (ser.go)
+		return serpb(c, serOpts{rich: true, dedup: 2, localRef: true}, args[0])
+	case "serpbo":
+		res := core.Result{}
+		quietly(c, func(ctx px.Context) { res = serpb(ctx, parseSerOpts(args[0]), args[1]) })
+		return res
+	case "jsonx":
+		return jsonx(args[0])
 	case "pbev":
 		e := evOf(args[0])
 		pc := proto.NewProtoConsumer()
@@ -734,6 +698,7 @@ func gen(g *core.G) {
 		g.Emit("@serjson " + v)
 		g.Emit("@serpb " + v)
 	}
+	genSer(g)
 	// malformed stream (outside the property's quantifier; model and implementation must still agree)
 	for i := 0; i < 200*g.Scale; i++ {
 		e := randEv(g.Rng, 2)
